@@ -949,6 +949,14 @@ var (
 	reflectStates = map[*ssa.Program]*reflectState{}
 )
 
+// methods of reflect.Type that exist but are not modelled (calling one ends
+// the path as unsupported)
+var rtypeUnmodelled = map[string]bool{
+	"Align": true, "CanSeq": true, "CanSeq2": true, "ChanDir": true, "FieldAlign": true, "FieldByNameFunc": true,
+	"IsVariadic": true, "Method": true, "MethodByName": true, "OverflowComplex": true, "OverflowFloat": true,
+	"OverflowInt": true, "OverflowUint": true, "common": true, "uncommon": true,
+}
+
 var rtypeMethodNames = []string{
 	"Bits", "Elem", "Field", "FieldByIndex", "FieldByName", "In", "Kind", "NumField", "NumIn", "NumMethod",
 	"NumOut", "Out", "Size", "String", "Name", "PkgPath", "Implements", "ConvertibleTo", "AssignableTo",
